@@ -7,7 +7,7 @@ allmydata.introducer.common.sign_to_foolscap; a subscriber records what is deliv
 Alphabet (see alphabet()):
   good        key in {K1,K2} x seqnum in {1,2,3,absent,"2"} x payload in {p,q}  (service "storage")
               + one announcement for a service nobody subscribed to
-              (thorough: + K1 x seqnum {1,2} for a second subscribed service)
+              (thorough: + one K1 announcement for a second subscribed service)
   forged/bad  for each base announcement (thorough: all 20; quick: 2 per key): claimed key != signer,
               one byte of msg changed, one byte of the signature changed, signature not base32,
               key not base32, signature without "v0-", key without "v0-", unsigned (None, None),
@@ -39,7 +39,6 @@ not when it makes a later good announcement of the same batch disappear.
 A late subscriber must be handed exactly the stored announcements, each under its signer's key.
 """
 import gc
-import itertools
 import json
 import traceback
 
@@ -181,7 +180,7 @@ def alphabet(seed, tier):
     good = [[k, s, p, "good", MAIN] for k in KEYS for s in SEQS for p in PAYS]
     extra = [["K1", 1, "p", "good", UNSUB]]
     if tier == "thorough":
-        extra += [["K1", 1, "p", "good", SVC2], ["K1", 2, "p", "good", SVC2]]
+        extra += [["K1", 1, "p", "good", SVC2]]
         bases = [(k, s, p) for k in KEYS for s in SEQS for p in PAYS]
     else:
         bases = [(k, s, p) for k in KEYS for (s, p) in QUICK_BASES]
@@ -541,6 +540,6 @@ def run(tier, seed):
 MANIFEST = {
     "engine": "H",
     "technique": "explicit-state reachability closure on the real IntroducerClient: every batch of 1-2 announcements from a closed alphabet applied in every reachable state, reference rules stepped alongside",
-    "text": "All states of the real client's announcement table reachable over 2 keys x 5 seqnums x 2 payloads are enumerated to closure (121 states; thorough 363 with a second service); in each, every single announcement and every ordered pair containing a good one (good, replayed, reordered, and 11 forged/malformed kinds, plus correctly signed garbage) is delivered through remote_announce_v2 to a fresh client rebuilt by replaying the shortest history, and the resulting table and the announcements handed to a subscriber are compared with the outcomes the stated rules allow.",
+    "text": "All states of the real client's announcement table reachable over 2 keys x 5 seqnums x 2 payloads are enumerated to closure (121 states; thorough 242 with a second service); in each, every single announcement and every ordered pair containing a good one (good, replayed, reordered, and 11 forged/malformed kinds, plus correctly signed garbage) is delivered through remote_announce_v2 to a fresh client rebuilt by replaying the shortest history, and the resulting table and the announcements handed to a subscriber are compared with the outcomes the stated rules allow.",
     "note": "State equivalence = the _inbound_announcements dict (nothing else is read by the code path). Silent cases (absent/non-integer seqnums, duplicates, unsubscribed service) are counted, not judged. Every transition is an implementation run, so traces_validated_against_impl = transitions.",
 }
